@@ -10,6 +10,10 @@ CLASSES = {
 }
 
 
+# minimized failures of earlier seeded changes that every engine property runs first
+COMMON_CORPUS = ["(?=)a{1,2}?b", "(?=)(a){0,2}?$", "\\ba{1,2}?b", "(?:x|(?!a))?a", "(?>(?:(a)|b(?!x))+)c|\\w+"]
+
+
 def known_for(prop):
     return [f for f in core.load_known()["findings"] if prop in f["properties"]]
 
@@ -24,7 +28,7 @@ def classify(prop, info):
 
 def gen_patterns(tier, seed, cfg):
     r = core.rng(seed, cfg["prop"])
-    pats = list(cfg.get("corpus", []))
+    pats = list(cfg.get("corpus", [])) + [p for p in COMMON_CORPUS if p not in cfg.get("corpus", [])]
     ncorp = len(pats)
     if cfg.get("products", True):
         pp = gen.product_patterns()
@@ -54,14 +58,19 @@ def text_set(tier, seed, cfg):
     r = core.rng(seed, cfg["prop"] + "/texts")
     alpha = cfg.get("alpha", gen.ALPHA)
     base = gen.texts(cfg.get("exh_len_quick", 2) if tier == "quick" else cfg.get("exh_len_thorough", 3), alpha)
-    extra = ["aab", "abab", "aabb", "éa-", "ab\nab", "aaaa", "cabc", "aaa", "abc", "aéb", "a-b", "bca", "ababab", "aaaaaa"]
+    extra = ["aab", "abab", "aabb", "éa-", "ab\nab", "aaaa", "cabc", "aaa", "abc", "aéb", "a-b", "bca", "ababab", "aaaaaa",
+             # more repetitions than any bounded quantifier of the grammar admits, then a continuation
+             "aaab", "aaaab", "abbb", "aaabc", "baaab"]
     extra += cfg.get("extra_texts", [])
     rnd = [gen.random_text(r, 6, alpha) for _ in range(20 if tier == "quick" else 150)]
     return base, extra + rnd
 
 
+ALWAYS = ["aaab", "aaa"]      # more repetitions than {1,2} / {0,2} admit, with and without a continuation
+
+
 def pick_texts(info, base, extra, r, k_base, k_extra):
-    return r.sample(base, min(len(base), k_base)) + r.sample(extra, min(len(extra), k_extra))
+    return r.sample(base, min(len(base), k_base)) + r.sample(extra, min(len(extra), k_extra)) + ALWAYS
 
 
 def run(cfg, tier, seed, replay=None):
@@ -85,7 +94,7 @@ def run(cfg, tier, seed, replay=None):
     infos = engine.prog_info(pats)
     tmap = {}
     for info in infos:
-        tmap[info["pattern"]] = pick_texts(info, base, extra, r, kb, ke) if not replay else base
+        tmap[info["pattern"]] = (pick_texts(info, base, extra, r, kb, ke) + cfg.get("pattern_texts", {}).get(info["pattern"], [])) if not replay else base
     texts_for = lambda info: tmap[info["pattern"]]
     compiled = [i for i in infos if engine.ngroups_of(i) is not None]
     ctx = {"cfg": cfg, "tier": tier, "seed": seed, "res": res, "infos": infos, "texts_for": texts_for,
